@@ -575,6 +575,12 @@ func (s *stateProv) StateBeforeEvent(ctx context.Context, roomVer gmsl.RoomVersi
 type loadCase struct {
 	Version string
 	Inputs  []string // per input: nick[:fault] with fault in bad-signature | stripped | malformed | dup
+	// Deep: nick:fault (stripped | bare) of events that are NOT inputs but lie in the inputs' auth chains and are served by
+	// the event provider: the fault sits one or more levels below the events being loaded
+	Deep []string `json:",omitempty"`
+	// Again: the same loader is given the same batch a second time (RequestBackfill does that when two servers return
+	// the same events); both rounds must classify alike
+	Again bool `json:",omitempty"`
 }
 
 func runLoad(r *harness.Run, c loadCase) error {
@@ -598,6 +604,17 @@ func runLoad(r *harness.Run, c loadCase) error {
 				opts[e.ID] = fedgen.Opt{DropAuth: drop}
 			}
 		}
+	}
+	for _, d := range c.Deep {
+		parts := strings.SplitN(d, ":", 2)
+		e := byNick[parts[0]]
+		var drop []string
+		for _, a := range e.Auth {
+			if a != h.CreateID || parts[1] == "bare" {
+				drop = append(drop, a)
+			}
+		}
+		opts[e.ID] = fedgen.Opt{DropAuth: drop}
 	}
 	real, _, err := fedgen.Materialise(h, opts)
 	if err != nil {
@@ -687,6 +704,36 @@ func runLoad(r *harness.Run, c loadCase) error {
 	}
 	sp := &stateProv{pdus: pdus}
 	loader := gmsl.NewEventsLoader(gmsl.RoomVersion(c.Version), fedgen.Verifier{}, sp, provider, false)
+	rounds := 1
+	if c.Again {
+		rounds = 2
+	}
+	for round := 1; round <= rounds; round++ {
+		if err := loadRound(c, round, loader, raw, expect); err != nil {
+			return err
+		}
+	}
+	r.Nontrivial(fmt.Sprintf("load|%s|%v|%v|%v", c.Version, c.Inputs, c.Deep, c.Again))
+	if len(c.Deep) > 0 {
+		return nil
+	}
+	// the same batch through RequestBackfill: events failing only the signature check are kept (documented), nothing panics
+	bf := &backfiller{sp: sp, provider: provider, pdus: raw}
+	var out []gmsl.PDU
+	if p, msg := harness.Try(func() {
+		out, _ = gmsl.RequestBackfill(context.Background(), "me.org", bf, fedgen.Verifier{}, h.RoomID, gmsl.RoomVersion(c.Version), []string{"$from"}, 100, fedgen.UID)
+	}); p {
+		return fmt.Errorf("RequestBackfill panics on inputs %v: %s", c.Inputs, msg)
+	}
+	for _, p := range out {
+		if cl := expect[p.EventID()]; cl != "ok" && cl != "SignatureErr" {
+			return fmt.Errorf("RequestBackfill returned %s which fails %s", p.EventID()[:8], cl)
+		}
+	}
+	return nil
+}
+
+func loadRound(c loadCase, round int, loader *gmsl.EventsLoader, raw []json.RawMessage, expect map[string]string) error {
 	var res []gmsl.EventLoadResult
 	var lerr error
 	if p, msg := harness.Try(func() {
@@ -729,21 +776,7 @@ func runLoad(r *harness.Run, c loadCase) error {
 			cls = "other:" + x.Error.Error()
 		}
 		if want := expect[x.Event.EventID()]; want != cls {
-			return fmt.Errorf("inputs %v: event %s classified %s, the first check it fails is %s", c.Inputs, x.Event.EventID()[:8], cls, want)
-		}
-	}
-	r.Nontrivial(fmt.Sprintf("load|%s|%v", c.Version, c.Inputs))
-	// the same batch through RequestBackfill: events failing only the signature check are kept (documented), nothing panics
-	bf := &backfiller{sp: sp, provider: provider, pdus: raw}
-	var out []gmsl.PDU
-	if p, msg := harness.Try(func() {
-		out, _ = gmsl.RequestBackfill(context.Background(), "me.org", bf, fedgen.Verifier{}, h.RoomID, gmsl.RoomVersion(c.Version), []string{"$from"}, 100, fedgen.UID)
-	}); p {
-		return fmt.Errorf("RequestBackfill panics on inputs %v: %s", c.Inputs, msg)
-	}
-	for _, p := range out {
-		if cl := expect[p.EventID()]; cl != "ok" && cl != "SignatureErr" {
-			return fmt.Errorf("RequestBackfill returned %s which fails %s", p.EventID()[:8], cl)
+			return fmt.Errorf("inputs %v (faults below them: %v; round %d through one loader): event %s classified %s, the first check it fails is %s", c.Inputs, c.Deep, round, x.Event.EventID()[:8], cls, want)
 		}
 	}
 	return nil
@@ -774,7 +807,7 @@ func (b *backfiller) ProvideEvents(v gmsl.RoomVersion, ids []string) ([]gmsl.PDU
 func main() { harness.Main("C14", "fault_enumeration", run) }
 
 func run(r *harness.Run) {
-	r.Rule("federation responses built from a generated room (create, creator join, power levels, join rules, two joins, a topic) with hash-derived event IDs and reference signatures, room versions 1 and 10: every single and every pair of per-event faults {bad signature, not allowed by its own auth events, auth event missing from the response, wrong room, no state key, duplicate state key, malformed JSON, listed in both lists} x event-provider behaviour {returns event, returns nothing, errors} through CheckStateResponse and CheckSendJoinResponse; send_join responses whose state forbids the join although the auth events the join cites (all part of that state) allow it; VerifyEventAuthChain (with a provider returning exactly the requested events, and one returning their whole auth chains) / VerifyAuthRulesAtState with a missing or disallowed event at every depth x state contents x allowValidation; LoadAndVerify / RequestBackfill on every batch of <= 3 inputs over events x {intact, bad signature, disallowed, malformed, listed twice}. Oracle recomputed per event from already-checked parts (VerifyEventSignatures, Allowed on an independently assembled auth set).")
+	r.Rule("federation responses built from a generated room (create, creator join, power levels, join rules, two joins, a topic) with hash-derived event IDs and reference signatures, room versions 1 and 10: every single and every pair of per-event faults {bad signature, not allowed by its own auth events, auth event missing from the response, wrong room, no state key, duplicate state key, malformed JSON, listed in both lists} x event-provider behaviour {returns event, returns nothing, errors} through CheckStateResponse and CheckSendJoinResponse; send_join responses whose state forbids the join although the auth events the join cites (all part of that state) allow it; VerifyEventAuthChain (with a provider returning exactly the requested events, and one returning their whole auth chains) / VerifyAuthRulesAtState with a missing or disallowed event at every depth x state contents x allowValidation; LoadAndVerify / RequestBackfill on every batch of <= 3 inputs over events x {intact, bad signature, disallowed, malformed, listed twice}, batches of <= 2 intact events with a disallowed event one or more levels below them in the auth chain (served by the provider), and the same loader given a batch twice. Oracle recomputed per event from already-checked parts (VerifyEventSignatures, Allowed on an independently assembled auth set).")
 	r.Assume("VerifyEventSignatures and Allowed are used as sub-oracles (their own properties are C06 / C07)", "RequestBackfill keeping events whose only failure is the signature check is documented library behaviour")
 	r.OnReplay("resp", func(raw json.RawMessage) error {
 		var c respCase
@@ -876,21 +909,46 @@ func run(r *harness.Run) {
 	}
 	for _, v := range []string{"10", "1"} {
 		for i, a := range inputs {
-			loads = append(loads, loadCase{v, []string{a}})
+			loads = append(loads, loadCase{Version: v, Inputs: []string{a}})
 			for j, b := range inputs {
 				if j < i {
 					continue
 				}
-				loads = append(loads, loadCase{v, []string{a, b}})
+				loads = append(loads, loadCase{Version: v, Inputs: []string{a, b}})
 				if r.Thorough() || (i+j)%3 == 0 {
 					for k, c := range inputs {
 						if k < j {
 							continue
 						}
-						loads = append(loads, loadCase{v, []string{a, b, c}})
+						loads = append(loads, loadCase{Version: v, Inputs: []string{a, b, c}})
 					}
 				}
 			}
+		}
+	}
+	// faults one or more levels below the loaded events (on an ancestor the provider serves), and the same loader used twice
+	for _, v := range []string{"10", "1"} {
+		plain := []string{"topic", "carol", "bob", "pl", "jr"}
+		for _, dn := range []string{"alice", "pl", "jr", "bob"} {
+			for _, df := range []string{"stripped", "bare"} {
+				for i, a := range plain {
+					if a == dn {
+						continue
+					}
+					for _, again := range []bool{false, true} {
+						loads = append(loads, loadCase{Version: v, Inputs: []string{a}, Deep: []string{dn + ":" + df}, Again: again})
+					}
+					for j, b := range plain {
+						if j <= i || b == dn {
+							continue
+						}
+						loads = append(loads, loadCase{Version: v, Inputs: []string{a, b}, Deep: []string{dn + ":" + df}}, loadCase{Version: v, Inputs: []string{b, a}, Deep: []string{dn + ":" + df}})
+					}
+				}
+			}
+		}
+		for _, a := range inputs {
+			loads = append(loads, loadCase{Version: v, Inputs: []string{a}, Again: true})
 		}
 	}
 	r.Parallel(len(loads), func(i int) {
@@ -901,7 +959,7 @@ func run(r *harness.Run) {
 			} else if strings.Contains(err.Error(), "neither") || strings.Contains(err.Error(), "results for") {
 				what = "result-count"
 			}
-			r.Violation(fmt.Sprintf("load:%s/%s:%v", loads[i].Version, what, loads[i].Inputs), err.Error(), "load", loads[i])
+			r.Violation(fmt.Sprintf("load:%s/%s:%v:%v:%v", loads[i].Version, what, loads[i].Inputs, loads[i].Deep, loads[i].Again), err.Error(), "load", loads[i])
 		}
 	})
 	r.Count("load_cases", int64(len(loads)))
